@@ -24,7 +24,7 @@
 //     joined with one space (the library's documented reading, scanner_test.go).
 //     Values never end in white space, are never empty when continued.
 //
-// Deliberately not generated (DESIGN.md C04): comments ended by FF, control
+// Deliberately not generated (DESIGN.md C04): control
 // bytes other than the six white-space characters, ASCII85 groups >= 2^32,
 // radix prefixes with leading zeros, reals that overflow float64, radix
 // numbers >= 2^63, a bare `>` or `)`, `//name`, white space inside `<~`/`~>`.
@@ -275,13 +275,15 @@ var seps = []sep{
 	{" ", "SP"}, {"\t", "TAB"}, {"\r", "CR"}, {"\n", "LF"}, {"\r\n", "CRLF"}, {"\f", "FF"}, {"\x00", "NUL"},
 	{"%c\n", "comment+LF"}, {"%c\r", "comment+CR"}, {"%({<\r\n", "comment+CRLF"}, {"%\n", "empty-comment"}, {" % x\n\t", "SP+comment+LF+TAB"},
 	{"", "nothing"},
+	// PLRM 3.2.2: a comment runs to the next newline or form feed
+	{"%c\f", "comment+FF"}, {"% )}\f\f", "comment+FF+FF"},
 }
 
 const sepNothing = 12
 
 // subsets for the triples (quick: sepsFew, thorough: sepsSome)
-var sepsFew = []int{0, 4, 8, sepNothing}
-var sepsSome = []int{0, 1, 2, 3, 4, 6, 7, 8, sepNothing}
+var sepsFew = []int{0, 4, 8, sepNothing, 13}
+var sepsSome = []int{0, 1, 2, 3, 4, 6, 7, 8, sepNothing, 13, 14}
 
 func legalSeps(a, b pstoken.Spelling, subset []int) []int {
 	var out []int
@@ -1380,7 +1382,7 @@ func main() {
 			"reals: nearest float64 or, if not exactly representable, one of its neighbours",
 			"radix numbers generated only for bases 2..36, no leading zeros in the base, values 0..2^63-1",
 			"DSC continuation lines are joined with one space (library's documented reading); values do not end in white space",
-			"not generated: FF-terminated comments, control bytes 1..31 other than white space, ASCII85 groups >= 2^32, reals beyond float64, //name, bare > or )",
+			"not generated: control bytes 1..31 other than white space, ASCII85 groups >= 2^32, reals beyond float64, //name, bare > or )",
 		},
 		TrustedBase: []string{"model/pstoken (spellings from PLRM 3.2; ground truth is the generated object sequence)", "math/big for exact decimal values"},
 		Families: func(tier string) []mc.Family {
@@ -1393,7 +1395,7 @@ func main() {
 
 			all := allSpellings(false)
 			fams = append(fams, mc.Family{Name: "tokens-1", Items: len(all), Body: singlesBody(all), Budget: budget,
-				Rule: fmt.Sprintf("item = one of %d spellings of %d pool objects; choices: separator after `{` and before `}` from %d separators (SP TAB CR LF CRLF FF NUL, 5 comment forms, nothing where a delimiter allows); non-trivial = the library returned at least one object that is not an executable name", len(all), len(pool), len(seps))})
+				Rule: fmt.Sprintf("item = one of %d spellings of %d pool objects; choices: separator after `{` and before `}` from %d separators (SP TAB CR LF CRLF FF NUL, 7 comment forms incl. comments ended by a form feed, nothing where a delimiter allows); non-trivial = the library returned at least one object that is not an executable name", len(all), len(pool), len(seps))})
 
 			prs := allSpellings(!thorough)
 			sub := sepsFew
